@@ -61,7 +61,7 @@ func (c cfgA) keyLookup() string {
 // canonical configurations are those of the original harness: extractor derived from its canonical
 // KeyLookup, nothing else set.
 func (c cfgA) canonical() bool {
-	return !c.Explicit && c.Lookup == "" && c.CookieName == "" && !c.SessOnly && !c.DecoyStore
+	return !c.Explicit && c.Lookup == "" && c.CookieName == "" && !c.SessOnly && !c.DecoyStore && !c.Defaults
 }
 
 // extractorText is the Go expression of the explicit extractor.
@@ -104,6 +104,9 @@ func (c cfgA) wiring() string {
 	if c.DecoyStore {
 		p = append(p, "Storage=set-next-to-Session")
 	}
+	if c.Defaults {
+		p = append(p, "IdleTimeout+ErrorHandler=unset")
+	}
 	return strings.Join(p, ",")
 }
 
@@ -122,7 +125,10 @@ func (c cfgA) literal() string {
 	if c.SessOnly {
 		p = append(p, "CookieSessionOnly: true")
 	}
-	p = append(p, fmt.Sprintf("SingleUseToken: %v", c.SingleUse), "IdleTimeout: "+idle.String())
+	p = append(p, fmt.Sprintf("SingleUseToken: %v", c.SingleUse))
+	if !c.Defaults {
+		p = append(p, "IdleTimeout: "+idle.String())
+	}
 	switch c.Backend {
 	case "storage":
 		p = append(p, "Storage: <injected storage>")
@@ -158,6 +164,9 @@ func (c cfgA) sigSuffix() string {
 	}
 	if c.DecoyStore {
 		p = append(p, "storage-next-to-session")
+	}
+	if c.Defaults {
+		p = append(p, "idle-timeout-default")
 	}
 	return " config=" + strings.Join(p, "+")
 }
